@@ -68,9 +68,12 @@ ExpandMut(d0, k0, mut) ==
 NN == ToNat(N)
 SubgroupXs == { X32(PMulG(FromNat(j))) : j \in 1..(NN-1) }
 TinyMsgs == << << >>, << 0 >>, Msg(33) >>
+TinyBig == NN > 20
+Sample(k) == IF TinyBig THEN { x \in 0..(NN+2) : x % k = 0 \/ x < 3 \/ x > NN - 3 } ELSE 0..(NN+2)
+SomeXs == IF TinyBig THEN { X32(PMulG(FromNat(j))) : j \in { 1, 2, 3, 57, 98, 99 } } ELSE SubgroupXs
 TinyCases ==
-       { << "tsign", d, k, m >> : d \in 1..(NN-1), k \in 0..(NN+1), m \in 1..3 }
-  \cup { << "tverify", rx, s, px, m >> : rx \in SubgroupXs \cup { NBytes(FromNat(5)), NBytes(P) }, s \in 0..(NN+2), px \in SubgroupXs, m \in 1..2 }
+       { << "tsign", d, k, m >> : d \in 1..(NN-1), k \in (IF TinyBig THEN Sample(3) ELSE 0..(NN+1)), m \in 1..3 }
+  \cup { << "tverify", rx, s, px, m >> : rx \in SubgroupXs \cup { NBytes(FromNat(5)), NBytes(P) }, s \in Sample(5), px \in SomeXs, m \in 1..2 }
 ExpandTiny(c) ==
   CASE c[1] = "tsign" -> [ e |-> "SchnorrSign", in |-> [ key |-> NBytes(FromNat(c[2])), msg |-> TinyMsgs[c[4]], mode |-> 3, nonce |-> NBytes(FromNat(c[3])) ] ]
     [] c[1] = "tverify" -> SV(c[2] \o NBytes(FromNat(c[3])), TinyMsgs[c[5]], c[4])
